@@ -1,7 +1,7 @@
 (* Properties_C04.v — C04: Factor followed by Solve returns x with A x = b in every block.
    Property theorems only; proofs in LUProofs.v.  The theorems are per block: LU.v models one
    block, and the tie checks that the implementation treats every block / lane that way. *)
-From Model Require Import Base LU LUProofs.
+From Model Require Import Base LU LUProofs DoolittleProofs DoolittleIPProofs.
 From Coq Require Import Field.
 Local Open Scope nat_scope.
 
@@ -45,3 +45,19 @@ Theorem C04_forward_then_backward :
     (forall i, i < n -> nsum N n (fun c => nmul N (view N Up U i c) (x c)) = y i).
 Proof. exact lin_solve_LyUx. Qed.
 Print Assumptions C04_forward_then_backward.
+
+(* end to end for the in-place Doolittle pair (no hypothesis left about the factors): LuDecompositionDoolittleInPlace
+   followed by LinearSolverInPlace::Solve returns x with A x = b, for every field, pattern, matrix on the pattern
+   (fill-in slots zero on entry, the documented contract) and right-hand side, provided no pivot is zero *)
+Theorem C04_doolittle_in_place_factor_then_solve :
+  forall (N : Num)
+    (Nfield : field_theory (n0 N) (n1 N) (nadd N) (nmul N) (nsub N) (nopp N) (ndiv N) (ninv N) eq)
+    n (A : mat N) (Ap : pat) (M0 : mat N) (b : vec N),
+    let P := doolittle_ip_sym n Ap in
+    (forall r c, r < n -> c < n -> P r c = true -> M0 r c = view N Ap A r c) ->
+    let M := doolittle_ip_num N n P M0 in
+    (forall i, i < n -> M i i <> n0 N) ->
+    let x := lin_solve_ip N n P M b in
+    forall r, r < n -> nsum N n (fun c => nmul N (view N Ap A r c) (x c)) = b r.
+Proof. exact doolittle_in_place_factor_then_solve. Qed.
+Print Assumptions C04_doolittle_in_place_factor_then_solve.
